@@ -214,6 +214,12 @@ Fixpoint dot (w : list Q) (v : list fnum) : fnum :=
   | _, _ => Fin 0
   end.
 Definition scal_lin (w : list Q) (vs : list (list fnum)) : list fnum := map (dot w) vs.
+(* /repo HEAD after the repair of F07: MoScalarFunction.scalarize works relative to the utopia point = the column-wise
+   minimum of the successful vectors (normalize()); for the linear function w.(y - u) = w.y - w.u *)
+Definition colz (j : nat) (vs : list (list fnum)) : list fnum := map (fun v => nth j v (Fin 0)) vs.
+Definition utopia (vs : list (list fnum)) : list fnum := map (fun j => fminl (colz j vs)) (seq 0 (length (hd [] vs))).
+Definition scal_lin_u (w : list Q) (vs : list (list fnum)) : list fnum :=
+  map (fun v => fadd (dot w v) (fneg (dot w (utopia vs)))) vs.
 
 (* ---------- constant-liar lie of Optimizer.ask(n_points > 1) ---------- *)
 Inductive liar := CLMin | CLMean | CLMax.
